@@ -37,6 +37,9 @@ package models
 //@   ensures result == nil && q.Float != nil ==> callres(Validate, 6, 0) == nil && callarg(Validate, 6, 0) == *q.Float
 //@   ensures result == nil && q.StringArray != nil ==> callres(Validate, 7, 0) == nil && callarg(Validate, 7, 0) == *q.StringArray
 //@   ensures result == nil ==> len(q.Property) > 0
+//@   ensures result == nil && q.Property == "_and" ==> len(q.And) > 0
+//@   ensures result == nil && q.Property == "_or" ==> len(q.Or) > 0
+//@   ensures result == nil && q.Property == "_id" ==> (q.String != nil && q.String.Operator == "equals") || (q.String == nil && q.StringArray != nil && q.StringArray.Operator == "containsAny")
 //@   loop 1 invariant rangeindex >= -1 && rangeindex < len(q.And)
 //@   loop 2 invariant rangeindex >= -1 && rangeindex < len(q.Or)
 //@   loop 3 invariant rangeindex >= -1 && rangeindex < len(q.StringArray.Value)
